@@ -106,12 +106,12 @@ def run(tier):
     J("R", groups(L - 1, quick=True), {}, api="R", options=["reentrant"])
     # the same rule sets with their tables loaded from a file: the serialized accepting lists carry the trailing-context flags too
     J("tables-file", groups(L - 1, quick=True), {}, options=['tables-file="s.tables"'], cdefs=['VF_TABLES_FILE="s.tables"'])
-    J("C99", [g for g in groups(L - 1, quick=True) if not g.label.startswith("tc-chain")], {}, api="C99")
+    J("C99", groups(L - 1, quick=True), {}, api="C99")
     J("lineno", groups(L - 1, quick=True), {"VF_CHECK_LINENO": 1}, options=["yylineno"])
     # yyinput() moves the scanning position: the next token is at beginning of line iff the last byte read was a newline
     for api in ("NR", "C99"):
         io = [H.OP_INPUT1, H.OP_INPUT2]
-        gs = [g for g in groups(L - 1, H.ops_action(io, api), quick=True) if "^" in g.label and (api != "C99" or "chain" not in g.label)]
+        gs = [g for g in groups(L - 1, H.ops_action(io, api), quick=True) if "^" in g.label]
         J("yyinput-" + api, gs, {"VF_OPMASK": H.opmask(*io), "VF_BUDGET_DEFAULT": 1, "VF_BUDGET_TOTAL": 1}, api=api)
     sb = [H.OP_SETBOL]
     J("setbol", groups(L - 1, H.ops_action(sb), quick=True), {"VF_OPMASK": H.opmask(*sb), "VF_BUDGET_DEFAULT": 1, "VF_BUDGET_TOTAL": 1})
